@@ -65,6 +65,7 @@ type c11Client struct {
 	vid      string
 	release  chan struct{}
 	released bool
+	releasedAt time.Time
 	sc       *OriginScript
 	wantBody []byte
 	raw      []byte
@@ -275,6 +276,7 @@ func runC11once(c C11Case) (fails []vstat.Failure) {
 		case "release":
 			if cl.sc != nil && !cl.released {
 				cl.released = true
+				cl.releasedAt = time.Now()
 				close(cl.release)
 			}
 		case "send":
@@ -316,6 +318,7 @@ func runC11once(c C11Case) (fails []vstat.Failure) {
 	for _, cl := range clients {
 		if cl.sc != nil && !cl.released {
 			cl.released = true
+			cl.releasedAt = time.Now()
 			close(cl.release)
 		}
 	}
@@ -323,6 +326,13 @@ func runC11once(c C11Case) (fails []vstat.Failure) {
 	// ---- in-flight exchanges complete
 	for i, cl := range clients {
 		if !cl.awaiting {
+			continue
+		}
+		if fw != nil && cl.releasedAt.After(tShutdown.Add(deadline-60*time.Millisecond)) {
+			// forwarder drains only for ShutdownTimeout and then closes everything: an origin that
+			// answers at or after that deadline cannot be waited for. Not judged.
+			st.Class("inflight-released-after-drain-deadline")
+			<-cl.respDone
 			continue
 		}
 		select {
